@@ -63,6 +63,11 @@ func uninterpDecls() string {
 	var sb strings.Builder
 	for _, n := range names {
 		u := uninterp[n]
+		if n == "height" {
+			// the recursion measure of an item depends on its dynamic type and reference only (not on how the pointer was boxed)
+			sb.WriteString("(declare-fun height2 (Int Int) Int)\n(define-fun height ((x Any)) Int (height2 (a.tag x) (a.i x)))\n")
+			continue
+		}
 		sb.WriteString(fmt.Sprintf("(declare-fun %s (%s) %s)\n", n, strings.Join(u.args, " "), u.rets))
 	}
 	// facts about them (each is an assumption on the standard library)
